@@ -142,6 +142,21 @@ CLAIMED["C07"] = dict(
     note="The call order of the housekeeping pass and the timed-out re-send are replicated by the harness at this "
          "level (the real handle_housekeeping is executed by the shell-level checks). Ids are tokens.")
 
+CLAIMED["C16"] = dict(
+    engine="tlc+linkcc", design_ref="4.16",
+    technique="TLA+ relational specification of the property (LinkCcRel/LinkCc) and integer transcription of tick() "
+              "(LinkCcImpl) checked against it by TLC one step from every grid state; one-step edges replayed on a "
+              "real LinkCongestionState; recorded controller histories validated by TLC against the relations",
+    text="TLC takes the transcribed tick() from every state of a boundary grid (5 controller states x 64 targets x "
+         "every input combination) and checks range, floor-until-RTT, lowered-only-by back-off (x0.85, not below the "
+         "delivered rate) or drain entry (x0.75), back-off never raises, growth <= 6% and <= 2x measured after the "
+         "initial seeding; 5e4 of those steps run on a real LinkCongestionState, and 30k-300k per-link ticks of the "
+         "real LinkCcController over real connections (RTT through the real tracker, counter resets, 100x bursts, "
+         "irregular spacing, links appearing / disappearing) are validated against the same relations plus the "
+         "loss-latch rule (rise only after the average stayed above 0.55 for 4 s, clear only below 0.25).",
+    note="Floating-point formulas are not proved; relations are on reported integers with unit slack. Differences "
+         "from the transcription that keep every relation are MODEL-DRIFT, not violations.")
+
 PENDING = {}
 
 def main():
